@@ -8,7 +8,7 @@ from vlib.core import Harness, E2Spec
 
 def build(tier, known):
     q = tier == 'quick'
-    hs = [Harness(n, 'data', 'chardata.rs', '', functions=[], bound='', claim='', role='native') for n in ('n_c20_integer', 'n_c20_bool', 'n_c20_float_radix')]
+    hs = [Harness(n, 'data', 'chardata.rs', '', functions=[], bound='', claim='', role='native') for n in ('n_c20_integer', 'n_c20_bool', 'n_c20_float_radix', 'n_c20_float_special')]
     # (type, longest text whose overflow boundary matters): decimal digits / 0x / 0b / octal forms
     widths = {'u8': (4, 10), 'i8': (5, 10), 'u16': (7, 18), 'i16': (7, 18), 'u32': (12, 34), 'i32': (12, 34), 'u64': (14, 24), 'i64': (14, 24)}
     for ty, (nq, nt) in widths.items():
@@ -19,6 +19,18 @@ def build(tier, known):
                              bound=f'all ASCII texts of length exactly {n}; T = {ty}',
                              claim='for every text of the forms 0 | [+-]?[1-9][0-9]* | 0[xX][0-9a-fA-F]+ | 0[bB][01]+ | 0[0-7]+: Some(v) with v the exact value iff it fits T, None otherwise',
                              native=('data', 'n_c20_integer'), parts=(8 if n >= 18 else 1), timeout=900 if q else 7200))
+    # long radix-prefixed / octal texts (first byte '0'): reach the 2^64 boundary of hex (19 bytes) and octal (23 bytes) texts
+    for ty in ('u8', 'i32', 'u64', 'i64'):
+        lo = widths[ty][0 if q else 1] + 1
+        for n in range(lo, (24 if q else 68) + 1):
+            hs.append(E2Spec(f'e2_c20_int0_{ty}_n{n}', 'C20Integer', dict(n=n, ty=ty, first=0x30),
+                             functions=['chardata::CharacterData::parse_integer::<T> (T = %s)' % ty],
+                             bound=f'all ASCII texts of length exactly {n} that start with `0` (hexadecimal, binary and octal forms); T = {ty}',
+                             claim='Some(v) with v the exact value iff it fits T, None otherwise',
+                             native=('data', 'n_c20_integer'), timeout=900 if q else 7200))
+    hs.append(E2Spec('e2_c20_float_nonfinite', 'C20FloatSpecial', dict(), functions=['chardata::CharacterData::serialize_internal', 'chardata::CharacterData::parse_float'],
+                     bound='every f64 bit pattern that is NaN, +inf or -inf', claim='parse_float(serialize(v)) is v (NaN for NaN)',
+                     native=('data', 'n_c20_float_special'), timeout=600))
     for n in range(0, 7):
         hs.append(E2Spec(f'e2_c20_bool_n{n}', 'C20Bool', dict(n=n), functions=['chardata::CharacterData::parse_bool'],
                          bound=f'all ASCII texts of length exactly {n}', claim='true/1 -> Some(true), false/0 -> Some(false), anything else -> None',
